@@ -4,10 +4,11 @@ QSBR_G = 'qsbr:region_guard,g_ctor,g_copy_ctor,g_move_ctor,g_copy_assign,g_move_
 LFRC_G = 'lfrc:layout,g_ctor,g_copy_ctor,g_move_ctor,g_copy_assign,g_move_assign,g_swap,g_reset,g_reclaim,g_acquire,g_acquire_int,g_aie,g_aie_int'
 STAMP_G = 'stampit_guard:gp_ctor,gp_assign,gp_reset,gp_reclaim,gp_acquire,gp_acquire_int'
 PROP = dict(
-  units=['mp', 'cptr', HP_G, EBR_G, QSBR_G, LFRC_G, STAMP_G],
+  units=['he:g_ctor_K1,g_assign_K1,g_reset_swap_reclaim_K1,g_acquire_K1,g_acquire_if_equal_K1,int_acquire_K1,int_acquire_if_equal_K1,g_ctor_K2,g_assign_K2,g_reset_swap_reclaim_K2,g_acquire_K2,g_acquire_if_equal_K2,int_acquire_K2,int_acquire_if_equal_K2,g_ctor_K3,g_assign_K3,g_reset_swap_reclaim_K3,g_acquire_K3,g_acquire_if_equal_K3,int_acquire_K3,int_acquire_if_equal_K3', 'mp', 'cptr', HP_G, EBR_G, QSBR_G, LFRC_G, STAMP_G],
   level='proof',
   strict_obligations=True,
-  obligations=['mp.*', 'cptr.*',
+  obligations=['he.ctor.protects', 'he.copy.shares', 'he.move.empties_source', 'he.self_assign.noop', 'he.reset.releases', 'he.reset.idempotent', 'he.swap.exchanges', 'he.reclaim.retires_then_empty', 'he.acquire.snapshot', 'he.acquire_if_equal.iff', 'he.count.exact', 'he.guard_ops.preserve_inv',
+               'mp.*', 'cptr.*',
                'hp.slot.roundtrip', 'hp.ctor.protects', 'hp.copy.shares', 'hp.move.empties_source', 'hp.self_assign.noop', 'hp.reset.releases', 'hp.reset.idempotent', 'hp.swap.exchanges',
                'hp.reclaim.retires_and_resets', 'hp.guard_ops.preserve_inv', 'hp.guard_ops.empty_holds_no_slot', 'hp.acquire.snapshot', 'hp.acquire_if_equal.iff',
                'ebr.copy.shares', 'ebr.move.empties_source', 'ebr.nesting.balanced', 'ebr.acquire.snapshot', 'ebr.reclaim.retires_once',
@@ -15,7 +16,7 @@ PROP = dict(
                'lfrc.layout', 'lfrc.guard.algebra', 'lfrc.acquire.snapshot', 'lfrc.acquire_if_equal.iff', 'lfrc.reclaim.once',
                'stamp.region.balanced', 'stamp.acquire.enter_before_load'],
   explanation='marked_ptr algebra for fully symbolic MarkBits/MaxUpperMarkBits and all 64-bit pointer/mark values (every constant extracted from the header), concurrent_ptr forwarding, '
-              'and the guard_ptr smart-pointer algebra of every reclaimer (hazard_pointer, generic_epoch_based, quiescent_state_based, lock_free_ref_count, stamp_it; hazard_eras unit he when present): '
+              'and the guard_ptr smart-pointer algebra of every reclaimer (hazard_pointer, generic_epoch_based, quiescent_state_based, lock_free_ref_count, stamp_it; hazard_eras): '
               'copy/move/swap/assignment/reset/reclaim with ghost protection counts, self-assignment and double reset, and in INT mode the snapshot / acquire_if_equal-iff obligations with the '
               'source cell rewritten arbitrarily (mark-only changes included) between the atomic steps.',
   assumptions=['INT mode is sequentially consistent', 'hazard pointer slot shapes K in {1,2,3,5} (thorough 8)', 'std::atomic<marked_ptr> is trusted; its CAS compares object representations, shown equal to value equality by mp.eq.value / mp.repr.bijective',
